@@ -245,6 +245,17 @@ Theorem C01_unused_gate_refuses_effects :
   forall f args x a o i v, hse (ECall f args) = true /\ hse (EAssign x a) = true /\ hse (EIdxSet o i v) = true.
 Proof. exact gate_refuses_effects. Qed.
 
+(* (5) a session unit (REPL input, host-API unit; top_level_open): every top-level `let` survives in
+   place - a later unit may read it - while the inside of its statements is still cleaned under
+   the same specification *)
+Theorem C01_unused_session_unit_keeps_toplevel : forall p : program,
+  length (unused_session_unit p) = length p /\
+  (forall k x m e, nth_error p k = Some (SLet x m e) -> nth_error (unused_session_unit p) k = Some (SLet x m e)).
+Proof. exact session_unit_keeps_toplevel. Qed.
+Theorem C01_unused_session_unit_spec : forall p : program,
+  Forall2 (Elim (uses_block p)) p (unused_session_unit p).
+Proof. exact session_unit_spec. Qed.
+
 (* PARTIAL: the whole-program statement `run_program fuel (unused_program p)` agrees with
    `run_program fuel p` up to the permitted relaxation is NOT proved - it needs a simulation
    under a renaming of cell locations (a deleted `let` shifts every later cell) through all ten
